@@ -219,6 +219,13 @@ Proof.
     + apply uncoated_surface_transverse; assumption.
 Qed.
 
+(** the per-call model coincides with the chained one when the recorded calls form a chain *)
+Lemma trace_PP_chain : forall surfs k P,
+  trace_PP (O:=ROps) (chain_calls (O:=ROps) k surfs) P = trace_P (O:=ROps) k surfs P.
+Proof.
+  induction surfs as [|[k' J] rest IH]; intros k P; cbn; [reflexivity|apply IH].
+Qed.
+
 (** ** launch field of a (normalised) polarization state *)
 Definition normalised (st : R * R * R * R) : Prop :=
   let '(ex, ey, _, _) := st in ex * ex + ey * ey = 1.
